@@ -1101,6 +1101,10 @@ def classify(prop, linemap, hname):
         if '__CPROVER_contracts' in pid:
             return {'support'}
         return {'C09'}
+    if '[model-limit]' in desc:
+        # a limit of the verification model (the integer -> T table), not a statement about the code: when it is hit the
+        # block is undecided, never a violation
+        return {'modellimit'}
     if '[shim]' in desc:
         return {'support'}
     if '[canary]' in desc:
@@ -1268,6 +1272,10 @@ def _run_block(r, blocks, keep=False, verbose=False):
                               'line': (p.get('sourceLocation') or {}).get('line'),
                               'solver': p.get('solver')})
     r.solver = ','.join(sorted({p.get('solver') or '?' for p in results}))
+    for x in r.obligations:
+        if x['status'] == 'FAILURE' and 'modellimit' in x['tags']:
+            x['status'] = 'UNKNOWN'
+            x['desc'] = (x['desc'] or '') + ' -- a limit of the verification model was reached: undecided, not a violation'
     unwind_fail = [x for x in r.obligations if x['status'] == 'FAILURE' and '.unwind.' in (x['id'] or '')]
     bad = [x for x in r.obligations if x['status'] == 'FAILURE' and x not in unwind_fail]
     und = [x for x in r.obligations if x['status'] not in ('SUCCESS', 'FAILURE')]
@@ -1286,7 +1294,7 @@ def _run_block(r, blocks, keep=False, verbose=False):
         ids = None if (unwind_fail or loop_bad or loop_und) else [x['id'] for x in und]
         rf = refute_small(r, b, cfile, hname, cmd, ids, tmo)
         for x in r.obligations:
-            if x['id'] in rf and '.unwind.' not in (x['id'] or ''):
+            if x['id'] in rf and '.unwind.' not in (x['id'] or '') and 'modellimit' not in x['tags']:
                 x['status'] = 'FAILURE'
                 x['refuted_in'] = 'quantifier-free instance: every vector capped at 8 elements'
         if unwind_fail:
